@@ -220,3 +220,32 @@ def memoisation_rule(check, rule: str = "H8") -> None:
     if len(fx) < 3:
         raise AnalysisError(f"positive fixture for the memoisation rule no longer matches ({len(fx)})")
     check.ok(rule, "fixture/memoisation", f"positive fixture matched {len(fx)} memoised state-dependent functions")
+
+
+def non_accumulating_liveouts(cfg: CFG, head: Node) -> list[tuple[str, Node]]:
+    """Variables assigned inside the loop of `head` whose value is used after the loop although the assignment does not
+    read the variable's previous value: only the last iteration decides. (Loop targets themselves are excluded.)"""
+    from ..cfg import name_uses
+
+    body = cfg.loop_body(head)
+    carried = {(name, node.id) for name, node, _ in cfg.carried_uses(head)}
+    out = []
+    for n in body:
+        if n.kind != "stmt":
+            continue
+        for d in cfg.defs_at(n):
+            if d.kind not in ("value", "aug", "walrus"):
+                continue
+            live_out = False
+            for u in cfg.stmt_nodes():
+                if u in body or u is head:
+                    continue
+                if any(x.id == d.name for x in cfg.uses_at(u)) and d in cfg.defs_reaching(d.name, u):
+                    live_out = True
+                    break
+            if not live_out:
+                continue
+            reads_itself = d.kind == "aug" or (d.name, n.id) in carried
+            if not reads_itself:
+                out.append((d.name, n))
+    return out
